@@ -42,9 +42,10 @@ import (
 // ---- JSON shapes of Lean's Input / Obs ------------------------------------------------
 
 type Node struct {
-	Path string `json:"path"`
-	Kind string `json:"kind"` // dir | exec | file | symdir | symfile
-	Ver  int    `json:"ver"`
+	Path   string `json:"path"`
+	Kind   string `json:"kind"` // dir | exec | file | symdir | symfile | symexec | symnone
+	Ver    int    `json:"ver"`
+	Target string `json:"target"` // symbolic links: absolute path in the same world
 }
 
 type Input struct {
@@ -66,8 +67,16 @@ type Obs struct {
 
 // ---- abstract worlds -------------------------------------------------------------------
 
+// spec is a node of a generator table (link targets are chosen by world.put).
+type spec struct {
+	Path string
+	Kind string
+	Ver  int
+}
+
 type world struct {
-	nodes map[string]Node
+	nodes  map[string]Node
+	ghosts int
 }
 
 func newWorld() *world { return &world{nodes: map[string]Node{}} }
@@ -103,7 +112,26 @@ func (w *world) put(p, kind string, ver int) bool {
 	if kind == "dir" {
 		ver = 0
 	}
-	w.nodes[p] = Node{Path: p, Kind: kind, Ver: ver}
+	n := Node{Path: p, Kind: kind, Ver: ver}
+	// symbolic links point into /outside, an area no plugin root contains: what is written
+	// through a link shows up in the snapshot as a change outside the root
+	switch kind {
+	case "symdir":
+		n.Target = "/outside/dir"
+		w.put("/outside/dir/inside", "file", 12)
+	case "symfile":
+		n.Target = "/outside/data"
+		w.put("/outside/data", "file", 11)
+	case "symexec":
+		n.Target = "/outside/tool"
+		w.put("/outside/tool", "exec", ver)
+		n.Ver = w.nodes["/outside/tool"].Ver
+	case "symnone":
+		w.ghosts++
+		n.Target = fmt.Sprintf("/outside/ghost%d", w.ghosts)
+		w.dirAll("/outside")
+	}
+	w.nodes[p] = n
 	return true
 }
 
@@ -201,14 +229,13 @@ type job struct {
 }
 
 type env struct {
-	c       *common.Ctx
-	jobs    []*job
-	work    string // absolute scratch directory
-	targets string // directory the symlinks of a world point into (outside every case directory)
-	chain   *common.Chain
-	other   *common.Chain // a chain whose root is not what the signatures are made with
-	policy  *trustpolicy.OCIDocument
-	desc    ocispec.Descriptor
+	c      *common.Ctx
+	jobs   []*job
+	work   string // absolute scratch directory
+	chain  *common.Chain
+	other  *common.Chain // a chain whose root is not what the signatures are made with
+	policy *trustpolicy.OCIDocument
+	desc   ocispec.Descriptor
 }
 
 type memStore struct{ certs []*x509.Certificate }
@@ -240,10 +267,12 @@ func (e *env) build(caseDir, marker string, in Input) error {
 			err = os.WriteFile(p, script(marker, in.Name, n.Ver), 0o755)
 		case "file":
 			err = os.WriteFile(p, []byte(fmt.Sprintf("data-%d\n", n.Ver)), 0o644)
-		case "symdir":
-			err = os.Symlink(filepath.Join(e.targets, "dir"), p)
-		case "symfile":
-			err = os.Symlink(filepath.Join(e.targets, "data"), p)
+		case "symdir", "symfile", "symexec", "symnone":
+			if !strings.HasPrefix(n.Target, "/outside/") {
+				err = fmt.Errorf("link %q with target %q outside the link area", n.Path, n.Target)
+			} else {
+				err = os.Symlink(caseDir+n.Target, p)
+			}
 		default:
 			err = fmt.Errorf("unknown kind %q", n.Kind)
 		}
@@ -549,7 +578,8 @@ func acceptableNames() []string {
 var roots = []string{"/p", "/a/p", "/a/b/p", "/a/b/c/d/p", "/a/b/p/", "/a//b/./p", "/a/x/../b/p", "/a/b/p/."}
 
 // presence variants of <root>/<name> for an acceptable, creatable name
-var variants = []string{"absent", "plugin", "dirOnly", "exeIsDir", "exeIsData", "nameIsFile", "nameIsSymdir", "exeIsSymfile", "nested"}
+var variants = []string{"absent", "plugin", "dirOnly", "exeIsDir", "exeIsData", "nameIsFile", "nameIsSymdir", "exeIsSymfile", "nested",
+	"exeIsSymexec", "exeIsSymnone", "exeIsSymdir", "nameIsSymnone", "leftoverLinks", "pluginWithLinks"}
 
 func applyVariant(w *world, rc, name, variant string, ver int) {
 	d := path.Join(rc, name)
@@ -570,6 +600,29 @@ func applyVariant(w *world, rc, name, variant string, ver int) {
 		w.put(d, "symdir", 0)
 	case "exeIsSymfile":
 		w.put(x, "symfile", 0)
+	case "exeIsSymexec": // a working plugin whose executable is a link
+		w.put(x, "symexec", ver)
+	case "exeIsSymnone": // left-over of a broken installation: the executable entry dangles
+		w.put(x, "symnone", 0)
+		w.put(path.Join(d, "LICENSE"), "file", 2)
+	case "exeIsSymdir":
+		w.put(x, "symdir", 0)
+	case "nameIsSymnone":
+		w.put(d, "symnone", 0)
+	case "leftoverLinks": // no usable executable, but links named like every file a package may bring
+		w.put(x, "symnone", 0)
+		w.put(path.Join(d, "LICENSE"), "symfile", 0)
+		w.put(path.Join(d, "libfoo.so"), "symnone", 0)
+		w.put(path.Join(d, "README"), "symfile", 0)
+		w.put(path.Join(d, "sub"), "symdir", 0)
+	case "linksNoExe": // as before, without any entry for the executable
+		w.put(path.Join(d, "LICENSE"), "symnone", 0)
+		w.put(path.Join(d, "libfoo.so"), "symfile", 0)
+		w.put(path.Join(d, "notation-nonexec"), "symnone", 0)
+	case "pluginWithLinks": // a working plugin next to links named like the package's other files
+		w.put(x, "exec", ver)
+		w.put(path.Join(d, "LICENSE"), "symfile", 0)
+		w.put(path.Join(d, "libfoo.so"), "symnone", 0)
 	case "nested":
 		w.put(x, "exec", ver)
 		w.put(path.Join(d, "lib", "deep", "x.so"), "file", 2)
@@ -616,7 +669,11 @@ func (e *env) installCases(names []string, rootSet []string, full bool) error {
 	existing := []struct {
 		variant string
 		ver     int
-	}{{"absent", 0}, {"plugin", 1}, {"plugin", 2}, {"plugin", 3}, {"dirOnly", 0}, {"exeIsDir", 0}, {"exeIsData", 0}, {"nested", 1}, {"nameIsFile", 0}}
+	}{{"absent", 0}, {"plugin", 1}, {"plugin", 2}, {"plugin", 3}, {"dirOnly", 0}, {"exeIsDir", 0}, {"exeIsData", 0}, {"nested", 1}, {"nameIsFile", 0},
+		// the plugin directory was left over by an earlier, broken or hand-made installation
+		{"exeIsSymnone", 0}, {"exeIsSymfile", 0}, {"exeIsSymdir", 0}, {"exeIsSymexec", 1}, {"exeIsSymexec", 3},
+		{"leftoverLinks", 0}, {"linksNoExe", 0}, {"pluginWithLinks", 1}, {"pluginWithLinks", 3}, {"nameIsSymdir", 0}, {"nameIsSymnone", 0}}
+	richNames := map[string]bool{"my.plugin": true, "a b": true, "victim": true}
 	for _, name := range names {
 		if !fsLegal("notation-"+name) || strings.ContainsAny(name, "/\x00") || name == "" {
 			continue
@@ -624,7 +681,7 @@ func (e *env) installCases(names []string, rootSet []string, full bool) error {
 		for _, root := range rootSet {
 			rc := path.Clean(root)
 			for xi, ex := range existing {
-				if !full && xi > 3 && name != "my.plugin" {
+				if !full && xi > 3 && !richNames[name] {
 					continue
 				}
 				if ex.variant == "nameIsFile" {
@@ -671,27 +728,27 @@ func (e *env) installOddSources(root string) error {
 	type srcCase struct {
 		src   string
 		name  string
-		nodes []Node
+		nodes []spec
 	}
 	cases := []srcCase{
 		{"", "", nil},
-		{"/src/missing", "", []Node{{"/src/other", "file", 1}}},
-		{"/src/plugin", "", []Node{{"/src/plugin", "exec", 2}}},
-		{"/src/notation-", "", []Node{{"/src/notation-", "exec", 2}}},
-		{"/src/notation-x", "x", []Node{{"/src/notation-x", "file", 2}}},
-		{"/src/notation-..", "..", []Node{{"/src/notation-..", "file", 2}}},
-		{"/src/notation-x", "x", []Node{{"/src/notation-x", "symfile", 0}}},
-		{"/srcdir", "", []Node{{"/srcdir/README", "file", 1}}},
-		{"/srcdir", "", []Node{{"/srcdir/sub/notation-x", "exec", 2}}},
-		{"/srcdir", "", []Node{{"/srcdir/notation-x", "exec", 2}, {"/srcdir/notation-y", "exec", 2}}},
-		{"/srcdir", "", []Node{{"/srcdir/notation-..", "exec", 2}, {"/srcdir/notation-.", "exec", 2}}},
-		{"/srcdir", "", []Node{{"/srcdir/notation-x", "file", 2}, {"/srcdir/notation-y", "file", 2}}},
-		{"/srcdir", "x", []Node{{"/srcdir/notation-x", "file", 2}}},
-		{"/srcdir", "..", []Node{{"/srcdir/notation-..", "file", 2}}},
-		{"/srcdir", ".", []Node{{"/srcdir/notation-.", "file", 2}, {"/srcdir/zzz", "file", 1}}},
-		{"/srcdir", "y", []Node{{"/srcdir/notation-x", "file", 2}, {"/srcdir/notation-y", "exec", 3}}},
-		{"/srcdir", "..", []Node{{"/srcdir/notation-x", "file", 2}, {"/srcdir/notation-..", "exec", 3}}},
-		{"/srcdir", "x", []Node{{"/srcdir/notation-x", "exec", 2}, {"/srcdir/lnk", "symfile", 0}, {"/srcdir/dlnk", "symdir", 0}}},
+		{"/src/missing", "", []spec{{"/src/other", "file", 1}}},
+		{"/src/plugin", "", []spec{{"/src/plugin", "exec", 2}}},
+		{"/src/notation-", "", []spec{{"/src/notation-", "exec", 2}}},
+		{"/src/notation-x", "x", []spec{{"/src/notation-x", "file", 2}}},
+		{"/src/notation-..", "..", []spec{{"/src/notation-..", "file", 2}}},
+		{"/src/notation-x", "x", []spec{{"/src/notation-x", "symfile", 0}}},
+		{"/srcdir", "", []spec{{"/srcdir/README", "file", 1}}},
+		{"/srcdir", "", []spec{{"/srcdir/sub/notation-x", "exec", 2}}},
+		{"/srcdir", "", []spec{{"/srcdir/notation-x", "exec", 2}, {"/srcdir/notation-y", "exec", 2}}},
+		{"/srcdir", "", []spec{{"/srcdir/notation-..", "exec", 2}, {"/srcdir/notation-.", "exec", 2}}},
+		{"/srcdir", "", []spec{{"/srcdir/notation-x", "file", 2}, {"/srcdir/notation-y", "file", 2}}},
+		{"/srcdir", "x", []spec{{"/srcdir/notation-x", "file", 2}}},
+		{"/srcdir", "..", []spec{{"/srcdir/notation-..", "file", 2}}},
+		{"/srcdir", ".", []spec{{"/srcdir/notation-.", "file", 2}, {"/srcdir/zzz", "file", 1}}},
+		{"/srcdir", "y", []spec{{"/srcdir/notation-x", "file", 2}, {"/srcdir/notation-y", "exec", 3}}},
+		{"/srcdir", "..", []spec{{"/srcdir/notation-x", "file", 2}, {"/srcdir/notation-..", "exec", 3}}},
+		{"/srcdir", "x", []spec{{"/srcdir/notation-x", "exec", 2}, {"/srcdir/lnk", "symfile", 0}, {"/srcdir/dlnk", "symdir", 0}}},
 	}
 	for _, sc := range cases {
 		for _, overwrite := range []bool{false, true} {
@@ -711,7 +768,7 @@ func (e *env) installOddSources(root string) error {
 }
 
 func (e *env) listCases() error {
-	entries := [][]Node{
+	entries := [][]spec{
 		{},
 		{{"one/notation-one", "exec", 1}},
 		{{"one/notation-one", "exec", 1}, {"two", "dir", 0}, {"a.file", "file", 1}, {"notation-loose", "exec", 1}},
@@ -772,16 +829,6 @@ func Run(c *common.Ctx) error {
 	if e.work, err = filepath.Abs(c.WorkDir); err != nil {
 		return err
 	}
-	e.targets = filepath.Join(e.work, "targets")
-	if err := os.MkdirAll(filepath.Join(e.targets, "dir"), 0o755); err != nil {
-		return err
-	}
-	if err := os.WriteFile(filepath.Join(e.targets, "dir", "inside"), []byte("x"), 0o644); err != nil {
-		return err
-	}
-	if err := os.WriteFile(filepath.Join(e.targets, "data"), []byte("target data\n"), 0o644); err != nil {
-		return err
-	}
 	e.chain = common.MakeChain(common.ChainOpts{Tag: "c16"})
 	e.other = common.MakeChain(common.ChainOpts{Tag: "c16 other"})
 	e.desc = ocispec.Descriptor{MediaType: ocispec.MediaTypeImageManifest, Digest: digest.FromString("c16 artifact"), Size: 12}
@@ -791,9 +838,19 @@ func Run(c *common.Ctx) error {
 
 	hostile, acceptable := hostileNames(), acceptableNames()
 	lookupOps := []string{"get", "uninstall", "verify"}
-	// 1. every hostile name against every root through lookup, uninstall and end-to-end verification
-	if err := e.lookupCases(hostile, roots, lookupOps); err != nil {
-		return err
+	// 1. every hostile name through lookup, uninstall and end-to-end verification: against every root
+	// (thorough), or against the four clean depths and one of the unclean spellings in turn (quick)
+	if c.Thorough() {
+		if err := e.lookupCases(hostile, roots, lookupOps); err != nil {
+			return err
+		}
+	} else {
+		for k, name := range hostile {
+			rs := append(append([]string{}, roots[:4]...), roots[4+k%4])
+			if err := e.lookupCases([]string{name}, rs, lookupOps); err != nil {
+				return err
+			}
+		}
 	}
 	// 2. acceptable names: absent, and in every presence variant
 	if err := e.lookupCases(acceptable, []string{"/p", "/a/b/p", "/a//b/./p"}, lookupOps); err != nil {
